@@ -56,7 +56,7 @@ func runC07(w *World) {
 			var p []Cmd
 			for j := 0; j < per; j++ {
 				if r.Intn(12) == 0 {
-					p = append(p, scriptCmd(r, g))
+					p = appendScript(p, r, scriptCmd(r, g))
 				} else {
 					p = append(p, g.cmd(r))
 				}
